@@ -4,9 +4,6 @@ Import ListNotations.
 From Mds Require Import Gen.SliceIdx Slice.SliceUtilModel Slice.SliceUtilSpec Slice.SliceUtilProofs.
 Local Open Scope Z_scope.
 
-(* capacity clipped to the length *)
-Definition clipped (c : view) : Prop := vcap c = vlen c.
-
 Lemma clipped_cannot_overwrite w c : clipped c -> can_overwrite w c = false.
 Proof. unfold clipped, can_overwrite. intros ->. rewrite Z.ltb_irrefl. reflexivity. Qed.
 
@@ -81,7 +78,8 @@ Theorem chunks_correct v n : 0 <= vlen v <= vcap v -> 0 <= n ->
     tiles (voff v) cs (voff v + vlen v) /\
     Forall (fun c => can_overwrite v c = false) cs /\
     (0 < n -> chunk_lens_ok (vlen v) n (map vlen cs)) /\
-    (n = 0 -> cs = [v]).
+    (n = 0 -> cs = [v]) /\
+    (Forall clipped cs \/ (cs = [v] /\ (n = 0 \/ vlen v <= n))).
 Proof.
   intros Hv Hn. unfold chunks, ch_neg, ch_i0.
   destruct (n <? 0) eqn:E0; zb; [lia|].
@@ -90,7 +88,8 @@ Proof.
     assert (Hc : n = 0 \/ vlen v <= n) by (zb; lia). clear E1.
     exists [v]. split; [reflexivity|]. split; [cbn [tiles]; repeat split; lia|].
     split; [constructor; [apply self_cannot_overwrite | constructor]|].
-    split; [|reflexivity]. intros Hp. exists O, (vlen v). cbn [map repeat app]. repeat split; lia.
+    split; [|split; [reflexivity | right; split; [reflexivity | exact Hc]]].
+    intros Hp. exists O, (vlen v). cbn [map repeat app]. repeat split; lia.
   - (* the loop; only 0 < n and 0 < len are used *)
     assert (Hp : 0 < n) by (zb; lia). assert (Hl : 0 < vlen v) by (zb; lia). clear E1.
     destruct (n =? 0) eqn:E2; zb; [lia|].
@@ -99,7 +98,7 @@ Proof.
     destruct (chunks_loop_ok v n Hv Hp (S (Z.to_nat (vlen v))) 0 [] ltac:(lia) ltac:(lia)) as (cs & C & Tl & Cl & Emp & Lens).
     exists cs. rewrite C. cbn [app]. split; [reflexivity|]. rewrite Z.add_0_r in Tl. split; [exact Tl|].
     split; [eapply Forall_impl; [|exact Cl]; intros c Hc; apply clipped_cannot_overwrite; exact Hc|].
-    split; [|lia]. intros _.
+    split; [|split; [lia | left; exact Cl]]. intros _.
     destruct (Lens ltac:(lia)) as (m & last & L1 & L2). exists m, last. rewrite L1. repeat split; lia.
 Qed.
 
@@ -155,17 +154,18 @@ Theorem batches_correct v n : 0 <= vlen v <= vcap v -> 0 <= n ->
     zlen cs = Z.min n (vlen v) /\
     (0 < n -> tiles (voff v) cs (voff v + vlen v)) /\
     Forall (fun c => can_overwrite v c = false) cs /\
+    Forall clipped cs /\
     (0 < n -> 0 < vlen v -> map vlen cs = batch_lens (vlen v) (Z.min n (vlen v))).
 Proof.
   intros Hv Hn. unfold batches, ba_neg, ba_zero, ba_over, ba_capped, ba_zero2, ba_hint, ba_i0, ba_size, ba_rem.
   destruct (n <? 0) eqn:E0; zb; [lia|].
   destruct (n =? 0) eqn:E1; zb.
-  { exists []. split; [reflexivity|]. split; [cbn; lia|]. split; [lia|]. split; [constructor|lia]. }
+  { exists []. split; [reflexivity|]. split; [cbn; lia|]. split; [lia|]. split; [constructor|]. split; [constructor|lia]. }
   set (m := if n >? vlen v then vlen v else n).
   assert (Hm : m = Z.min n (vlen v)) by (unfold m; destruct (n >? vlen v) eqn:E; rewrite Z.gtb_ltb in E; zb; lia).
   clearbody m.
   destruct (m =? 0) eqn:E2; zb.
-  { exists []. split; [reflexivity|]. split; [cbn; lia|]. split; [intros _; cbn [tiles]; lia|]. split; [constructor|lia]. }
+  { exists []. split; [reflexivity|]. split; [cbn; lia|]. split; [intros _; cbn [tiles]; lia|]. split; [constructor|]. split; [constructor|lia]. }
   destruct (m <? 0) eqn:E3; zb; [lia|].
   assert (Hm1 : 0 < m <= vlen v) by lia.
   rewrite Z.quot_div_nonneg, Z.rem_mod_nonneg by lia.
@@ -179,6 +179,7 @@ Proof.
   { unfold zlen. rewrite <- (map_length vlen), Lens, app_length, !repeat_length. lia. }
   split; [lia|]. rewrite Z.add_0_r in Tl. split; [intros _; exact Tl|].
   split; [eapply Forall_impl; [|exact Cl]; intros c Hc; apply clipped_cannot_overwrite; exact Hc|].
+  split; [exact Cl|].
   intros _ _. rewrite Lens, <- Hm. unfold batch_lens. f_equal. f_equal. lia.
 Qed.
 
@@ -197,12 +198,13 @@ Theorem batches_doc {T} (b : list T) v n : valid_view b v -> 0 <= n ->
     (0 < n -> concat (map (window b) cs) = window b v) /\
     (0 < n -> tiles (voff v) cs (voff v + vlen v)) /\
     Forall (fun c => can_overwrite v c = false) cs /\
+    Forall clipped cs /\
     (forall c c', In c cs -> In c' cs -> - 1 <= vlen c - vlen c' <= 1).
 Proof.
-  intros (V1 & V2 & V3) Hn. destruct (batches_correct v n V2 Hn) as (cs & B & L & Tl & Cl & Lens).
+  intros (V1 & V2 & V3) Hn. destruct (batches_correct v n V2 Hn) as (cs & B & L & Tl & Cl & Cp & Lens).
   exists cs. split; [exact B|]. split; [exact L|].
   split; [intros Hp; rewrite (tiles_concat b (voff v) cs (voff v + vlen v) V1 (Tl Hp)); unfold window; do 2 f_equal; lia|].
-  split; [exact Tl|]. split; [exact Cl|].
+  split; [exact Tl|]. split; [exact Cl|]. split; [exact Cp|].
   intros c c' Hc Hc'.
   destruct (Z.eq_dec n 0) as [->|Nn].
   { destruct cs; [destruct Hc|]. unfold zlen in L. cbn [length] in L. lia. }
@@ -218,10 +220,17 @@ Theorem chunks_doc {T} (b : list T) v n : valid_view b v -> 0 <= n ->
     tiles (voff v) cs (voff v + vlen v) /\
     Forall (fun c => can_overwrite v c = false) cs /\
     (0 < n -> chunk_lens_ok (vlen v) n (map vlen cs)) /\
-    (n = 0 -> cs = [v]).
+    (n = 0 -> cs = [v]) /\
+    (Forall clipped cs \/ (cs = [v] /\ (n = 0 \/ vlen v <= n))).
 Proof.
-  intros (V1 & V2 & V3) Hn. destruct (chunks_correct v n V2 Hn) as (cs & C & Tl & Cl & Lens & Z0).
+  intros (V1 & V2 & V3) Hn. destruct (chunks_correct v n V2 Hn) as (cs & C & Tl & Cl & Lens & Z0 & Cp).
   exists cs. split; [exact C|].
   split; [rewrite (tiles_concat b (voff v) cs (voff v + vlen v) V1 Tl); unfold window; do 2 f_equal; lia|].
   repeat split; assumption.
 Qed.
+
+(* Where the strict reading "every chunk has cap = len" fails: the early return hands back vs
+   itself, so a slice with spare capacity comes back with it (for every n = 0 or n >= len). *)
+Theorem chunks_single_keeps_capacity v n : 0 <= n -> ch_single n (vlen v) = true ->
+  chunks v n = Ok [v].
+Proof. intros Hn H. unfold chunks, ch_neg. decide_if. rewrite H. reflexivity. Qed.
